@@ -119,10 +119,10 @@ class ByteMeter:
         fin = bool(ctrl & 0x10)
         if ctrl == 0x93:
             self.described.append("snrm")
-            return enc_frame(self.ca, self.sa, 0x73)
+            return enc_frame(self.ca, self.sa, 0x73, getattr(self, "ua_info", b""))
         if ctrl == 0x53:
             self.described.append("disc")
-            return enc_frame(self.ca, self.sa, 0x73)
+            return enc_frame(self.ca, self.sa, 0x73, getattr(self, "ua_info", b""))
         if ctrl & 0x01 == 0:
             ssn, rsn = (ctrl >> 1) & 7, ctrl >> 5
             self.described.append(f"i:{ssn}:{rsn}:{int(seg)}:{int(fin)}:{hx(info)}")
@@ -226,6 +226,7 @@ def run_session(d):
         sl, sp = d.get("server", [1, 17])
         cl = d.get("client", 16)
         meter = ByteMeter(enc_addr(cl, None), enc_addr(sl, sp), d["vs"], d["vr"], d["maxInfo"])
+        meter.ua_info = bytes.fromhex(d.get("uaInfo", ""))     # (the negotiated-parameters field a meter puts in its UA)
         ser = FakeSerial(meter, make_schedule(d["gran"], d.get("gseed", 0)))
         t = SerialHdlcTransport(client_logical_address=cl, server_logical_address=sl, server_physical_address=sp, serial_port="x", serial=ser)
         conn = t.hdlc_connection
@@ -378,6 +379,29 @@ class C18(fw.Prop):
         yield case([["script", ["e6e700" + "aa" * 10]], ["send", "-"]], "empty-request")
         # the meter takes less than the client sends in one field
         yield case(self.exchange(rng, 5, 1, 100), "meter-max-info", maxData=128, maxInfo=64)
+        # the UA carries the meter's parameters (maximum information lengths 126 = 0x7E, 128, ...), or one of its check sequences
+        # happens to contain the flag byte; stations whose address bytes contain 0x7E
+        def ua_params(tx, rx, wtx=1, wrx=1):
+            body = b"\x05\x01" + bytes([tx]) + b"\x06\x01" + bytes([rx]) + b"\x07\x04" + wtx.to_bytes(4, "big") + b"\x08\x04" + wrx.to_bytes(4, "big")
+            return b"\x81\x80" + bytes([len(body)]) + body
+        infos = [ua_params(126, 126), ua_params(128, 128), ua_params(126, 128), ua_params(0x7E, 0x7D, 0x7E, 0x7E7E)]
+        for w in range(1, 4000):
+            fr = enc_frame(enc_addr(16, None), enc_addr(1, 17), 0x73, ua_params(128, 128, w, 1))
+            if 0x7E in fr[-3:-1] or 0x7E in fr[9:11]:
+                infos.append(ua_params(128, 128, w, 1))
+                if len(infos) >= 8:
+                    break
+        for info in infos:
+            for gran in grans:
+                d = {"maxData": 128, "maxInfo": 128, "vs": 0, "vr": 0, "gran": gran, "gseed": rng.randrange(10 ** 6), "uaInfo": info.hex(),
+                     "ops": [["connect"]] + self.exchange(rng, 30, 2, 10) + [["disconnect"], ["connect"]] + self.exchange(rng, 3, 1, 3) + [["disconnect"]],
+                     "tag": "ua-with-parameters"}
+                yield self.make_case(d)
+        for server, client in (([63, 17], 16), ([63, 0], 63), ([8100, 5], 16), ([191, 1], 16), ([200, 8064], 1)):
+            for gran in grans:
+                d = {"maxData": 128, "maxInfo": 128, "vs": 0, "vr": 0, "gran": gran, "gseed": rng.randrange(10 ** 6), "server": server, "client": client,
+                     "ops": [["connect"]] + self.exchange(rng, 150, 2, 150) + [["disconnect"]], "tag": "addresses-with-flag-byte"}
+                yield self.make_case(d)
         # addresses
         for server, client in (([1, None], 16), ([1, 17], 1), ([127, 127], 127), ([16, 1], 32), ([200, 17], 16), ([5, 200], 16), ([16383, 16383], 16),
                                ([1, 0], 16), ([300, 5000], 100)):
